@@ -212,6 +212,8 @@ def x_fold(op):
 
 def line(op, backend):
     kind, unit, wks, zr, w, fold, origin = op
+    if kind.startswith("bad"):
+        return None                      # oracle only
     return "%s %s %d %d %s %d %d" % (kind, unit, wks, _wke(wks), zr, w, x_fold(op))
 
 
@@ -273,7 +275,24 @@ def _near_unit_edge(irr, unit):
     return False
 
 
+BAD_UNITS = ("", "days", "Day", "DAY", "weeks", "quarter", "millisecond", "microsecond", "millennium", "centuries", "sec", "mins", "hours",
+             "second ", " day", "d", "é", "none", "None")
+
+
+def _bad_unit_ops(rng):
+    """unknown unit names (and, for a Date, the three time-of-day units): ValueError, whatever the value"""
+    for u in BAD_UNITS:
+        for k in ("startof", "endof"):
+            yield ("bad" + k, u, 0, "d", (rng.randint(1, 3652059) - 719163) * 86400 * US, 0, "bad")
+            yield ("bad" + k, u, 0, rng.choice(("n", "f3600", str(rng.randrange(len(D.ZN))))), rng.randint(-10 ** 15, 4 * 10 ** 15), 1, "bad")
+    for u in ("second", "minute", "hour"):
+        for k in ("startof", "endof"):
+            for _ in range(3):
+                yield ("bad" + k, u, 0, "d", (rng.randint(1, 3652059) - 719163) * 86400 * US, 0, "bad")
+
+
 def gen_ops(rng, tier):
+    yield from _bad_unit_ops(rng)
     per_zone = {"quick": 4, "thorough": 10 ** 9, "widen": 8}[tier]
     n_mid = {"quick": 1500, "thorough": 10 ** 9, "widen": 5000}[tier]
     n_special = {"quick": 10, "thorough": 10 ** 9, "widen": 40}[tier]
@@ -415,6 +434,17 @@ def _build(op):
 def impl(op, backend):
     p = _P["p"]
     kind, unit, wks, zr, w, fold, origin = op
+    if kind.startswith("bad"):
+        if zr == "d":
+            f = D.fields(w)
+            x = p.Date(f[0], f[1], f[2])
+        else:
+            sols = D.wall_solutions(D.zname(zr), w, YMAX) if zr[0] not in "nf" else [w]
+            if not sols:
+                return "skip"
+            x = D.mk(zr, w, 1)
+        r = x.start_of(unit) if kind == "badstartof" else x.end_of(unit)
+        return "ok " + type(r).__name__
     x = _build(op)
     if zr != "d":
         u = x_instant(zr, w, fold)
@@ -490,6 +520,10 @@ def _year_of(w):
 
 def oracle(op, out, backend):
     kind, unit, wks, zr, w, fold, origin = op
+    if kind.startswith("bad"):
+        if out in ("skip", "err ValueError"):
+            return None
+        return f"{'Date' if zr == 'd' else 'DateTime'}.{kind[3:]}({unit!r}): expected ValueError for an unknown unit, got {out}"
     if out in ("err BadSetup",):
         return "harness: could not build the value (%s)" % out
     tab = _ztab(zr)
@@ -555,6 +589,8 @@ def _inner_irregular(zr, L, H):
 
 def tag(op, out):
     kind, unit, wks, zr, w, fold, origin = op
+    if kind.startswith("bad"):
+        return "badunit:" + ("date" if zr == "d" else "datetime")
     L, H = unit_labels(unit, wks, w)
     T = L if kind == "startof" else H
     c = _label_class(zr, T) if D.MIN_US <= T <= D.MAX_US else "outofrange"
@@ -575,7 +611,9 @@ def _m_boundary(op, backend, out, viol):
     L, H = unit_labels(unit, wks, w)
     T = L if kind == "startof" else H
     if unit in SUBDAY:
-        return _label_class(zr, T) != "unique" or _inner_irregular(zr, L, H)
+        # only units that contain an edge of a gap/overlap; a unit lying wholly inside a repeated hour is resolved correctly
+        # (theorems subday_*_noedge) and is NOT excused
+        return _inner_irregular(zr, L, H)
     # day and longer (repaired): only a boundary label strictly inside a gap is still resolved wrongly
     if _label_class(zr, T) != "skipped":
         return False
